@@ -42,6 +42,7 @@ def extract_inputs(trace):
     """Values returned by kani::any_raw_*(), in program order, flattened to primitives."""
     vals = []
     named = {}
+    whole = None      # lhs of the last array return value that was taken as a whole
     for s in trace:
         if s.get("stepType") != "assignment":
             continue
@@ -52,8 +53,17 @@ def extract_inputs(trace):
                 or fn.startswith("kani::any_raw::<")):
             if fn.startswith("kani::any_raw_internal::<") or True:
                 pass
+            # an array is reported as one whole-array assignment and/or element-wise ones
+            # (`ret[0]`, `ret[1]`, ...): never count both
+            base = lhs.split("[")[0]
+            if "[" in lhs and whole == base:
+                continue
             one = []
             _flatten(s.get("value"), one)
+            if "[" not in lhs and "elements" in (s.get("value") or {}):
+                whole = base
+            elif "[" not in lhs:
+                whole = None
             # any_raw -> any_raw_internal nest: count only the innermost producer
             if fn.startswith("kani::any_raw_internal::<") or fn.startswith("kani::any_raw_array::<"):
                 vals.extend(one)
